@@ -52,10 +52,24 @@ def tree_digest(d):
             st = os.stat(p)
             h.update(os.path.relpath(p, d).encode() + b"\0%d\0%d\0" % (st.st_size, st.st_mtime_ns))
             with open(p, "rb") as f:
-                while True:
-                    b = f.read(1 << 20)
-                    if not b:
+                # holes of sparse files are skipped (their extent list is part of the digest): a write into a hole shows
+                # up as a new data extent
+                fd, pos = f.fileno(), 0
+                while pos < st.st_size:
+                    try:
+                        data = os.lseek(fd, pos, os.SEEK_DATA)
+                    except OSError:
                         break
-                    h.update(b)
+                    hole = os.lseek(fd, data, os.SEEK_HOLE)
+                    h.update(b"%d-%d\0" % (data, hole))
+                    os.lseek(fd, data, os.SEEK_SET)
+                    left = hole - data
+                    while left > 0:
+                        b = os.read(fd, min(left, 1 << 20))
+                        if not b:
+                            break
+                        h.update(b)
+                        left -= len(b)
+                    pos = hole
         h.update(("|".join(sorted(dirs))).encode())
     return h.hexdigest()
